@@ -192,3 +192,23 @@ reg("C04", "c04", [("nonlinear", "plain", 1)], "exploration",
                "quadratic data must agree with coneqp, gp with cp; F(x,z) is never called where F(x) refused.",
     level_note="Trusts vlib/nlfam.py (function families with analytic gradients/Hessians) and numpy.",
     design_ref="4/C04")
+
+reg("C09", "c09", [("histories", "plain", 1)], "exploration",
+    rule="Hypothesis draws a history of 2-8 steps over all ten entry points (conelp, coneqp, lp, qp, socp, sdp, cpl, cp, gp, "
+         "op.solve), each call on its own generated problem: set/delete a key of the global solvers.options, call with or "
+         "without a per-call options= dictionary (incl. the empty dictionary), call with an invalid option value (global or "
+         "per-call), run 2-4 calls concurrently in threads (switch interval 1e-6), loose-vs-tight tolerance pair. Every "
+         "call is compared bit-for-bit with the same call made by a pristine forked process (forked before any solver "
+         "call; global options empty; the effective options passed explicitly), and byte images of all arguments, dims, "
+         "start points, the per-call and the global options dictionary are compared before/after. Non-trivial = history "
+         "with >=3 compared solver calls, >=1 global option edit and >=1 per-call dictionary; distinct = SHA-1 of case JSON.",
+    assumptions=["OPENBLAS_NUM_THREADS=1 (set by the runner): results are then bit-reproducible across processes",
+                 "thread interleavings are sampled (short switch interval), not enumerated",
+                 "kktreg is only validated by the cone solvers (documented there)"],
+    technique="model-based property testing of call histories (Hypothesis) with a pristine-process differential oracle and byte-image isolation checks",
+    level_text="~1600 (quick) / 3e4 (thorough) generated histories; every solver call in a history must equal the call "
+               "made from a pristine process with the effective options given explicitly (so per-call options win, nothing "
+               "leaks between calls or threads), leave all inputs and option dictionaries byte-identical, reject invalid "
+               "option values with ValueError before any KKT factorization or F(x) call, and respect maxiters.",
+    level_note="Trusts the reference server (a process forked before the first solver call) and float.hex serialisation.",
+    design_ref="4/C09")
